@@ -17,10 +17,10 @@ for p in (2, 0, -2, 8):
                          tiers='qt' if p in (2, 0) else 't', timeout=None, bound='precision %d, finite |coord|<1e9, all clip types / fill rules' % p,
                          desc='BooleanOp(PathsD): engine gets round(x*scale), scale = smallest power of two above 10^p; result = engine output * 1/scale'))
 for p in (2, 0, -3):
-    for part, what in ((1, 'coordinates'), (2, 'delta and arc tolerance'), (4, 'result descaling')):
+    for part, what in ((1, 'coordinates'), (2, 'delta'), (8, 'arc tolerance'), (4, 'result descaling')):
         if p == 0 and part != 1: continue
-        OBLIGATIONS.append(O('C16.b-inflate-d-p%d%s' % (p, '' if p == 0 else '-part%d' % part), 'c11_args.cpp', 'harness_inflate_d', defs=['PREC=%d' % p, 'IPART=%d' % (7 if p == 0 else part)], replace=OFF, unwind=5,
-                             backend=['cadical', 'kissat', 'sat'], flags=['--slice-formula'], tiers='t', timeout=2400 if part == 4 else 900, bound='precision %d, finite |values|<1e6, delta != 0' % p,
+        OBLIGATIONS.append(O('C16.b-inflate-d-p%d%s' % (p, '' if p == 0 else '-part%d' % part), 'c11_args.cpp', 'harness_inflate_d', defs=['PREC=%d' % p, 'IPART=%d' % (15 if p == 0 else part)], replace=OFF, unwind=5,
+                             backend=['cadical', 'kissat', 'sat'], flags=['--slice-formula'], tiers='x' if (p == -3 and part in (2, 8)) else 't', timeout=2400 if part == 4 else 900, bound='precision %d, finite |values|<1e6, delta != 0' % p,
                              desc='InflatePaths(PathsD): coordinates, delta and arc tolerance scaled by 10^p; miter limit unscaled; result descaled' + ('' if p == 0 else ' (this obligation: %s)' % what)))
 OBLIGATIONS.append(O('C16.a-scalepaths-round', 'c11_args.cpp', 'harness_scalepaths_range', unwind=4, backend=['cadical', 'kissat'], tiers='t', timeout=900,
                      bound='1 path x 2 points, all finite doubles, scale 100', desc='ScalePaths<int64,double> == round-to-nearest(x*scale) elementwise, or range error'))
